@@ -83,6 +83,9 @@ type Scenario struct {
 	ID    string  `json:"id"`
 	Cfg   Cfg     `json:"cfg"`
 	Steps []Input `json:"steps"`
+	// Epilogue: after the steps every live session leaves, the clock is
+	// advanced by two hours and a snapshot is taken (C05).
+	Epilogue bool `json:"epilogue"`
 }
 
 // Msg is a received message under the abstraction alpha (DESIGN 2.5).
